@@ -171,11 +171,13 @@ Section Generic.
     right. apply memz_filter in H. tauto.
   Qed.
 
-  Lemma open1_outcome : forall c t kn b reqs extra race b' r,
-    open1 ms_select ms_lazy c t kn b reqs extra race = (b', r) ->
+  Lemma open1_outcome : forall c t kn b reqs extra race allow b' r,
+    open1 ms_select ms_lazy c t kn b reqs extra race allow = (b', r) ->
     outcome c t kn b reqs b' r.
   Proof.
-    intros c t kn b reqs extra race b' r H. unfold open1 in H.
+    intros c t kn b reqs extra race allow b' r H. unfold open1 in H.
+    destruct (c_limited c && negb allow).
+    { inversion H; subst. apply OutFail. discriminate. }
     destruct (find _ reqs) as [p|] eqn:Epref.
     - (* optimistic *)
       apply pref_found in Epref. destruct Epref as [Hin Hk].
@@ -324,8 +326,7 @@ Inductive outcomes (c : cfg) (t : table) (kn : list Z)
     outcome c t kn b q b1 r -> outcomes c t kn b1 qs b2 rs ->
     outcomes c t kn b (q :: qs) b2 (r :: rs).
 
-Definition reqs_of (opens : list (list Z * list Z * bool)) : list (list Z) :=
-  map (fun x => fst (fst x)) opens.
+Definition reqs_of (opens : list oreq) : list (list Z) := map q_reqs opens.
 
 Section GenericBatch.
   Variable ms_select : (Z -> bool) -> list Z -> option Z.
@@ -338,11 +339,11 @@ Section GenericBatch.
     run_batch ms_select ms_lazy c t kn b opens = (b', rs) ->
     outcomes c t kn b (reqs_of opens) b' rs.
   Proof.
-    induction opens as [|[[q e] rc] opens IH]; intros c t kn b b' rs H; cbn [run_batch] in H.
+    induction opens as [|q opens IH]; intros c t kn b b' rs H; cbn [run_batch] in H.
     - inversion H; subst. constructor.
-    - destruct (open1 ms_select ms_lazy c t kn b q e rc) as [b1 o] eqn:E1.
+    - destruct (open1 ms_select ms_lazy c t kn b (q_reqs q) (q_extra q) (q_race q) (q_allow q)) as [b1 o] eqn:E1.
       destruct (run_batch ms_select ms_lazy c t kn b1 opens) as [b2 os] eqn:E2.
-      inversion H; subst. cbn [reqs_of map fst]. econstructor.
+      inversion H; subst. cbn [reqs_of map]. econstructor.
       + eapply open1_outcome; eauto.
       + apply IH. exact E2.
   Qed.
